@@ -365,7 +365,9 @@ type context struct {
 	isInExtern bool
 }
 
-func (an *Analysis) handleStructFields(typ *types.Struct, ctx context) []StructField {
+// handleStructFields returns the fields of `typ`, and the ones dropped because
+// their JSON name is ambiguous, which still hide deeper fields of the structs embedding `typ`
+func (an *Analysis) handleStructFields(typ *types.Struct, ctx context) (fields, ambiguous []StructField) {
 	var out []StructField
 	for i := 0; i < typ.NumFields(); i++ {
 		field := typ.Field(i)
@@ -379,13 +381,17 @@ func (an *Analysis) handleStructFields(typ *types.Struct, ctx context) []StructF
 		if field.Embedded() {
 			if st, isStruct := fieldType.(*Struct); isStruct {
 				log.Printf("gomacro: embedded struct field %s will be flattened", field.Name())
-				promotedFields := st.Fields
+				promotedFields, promotedAmbiguous := st.Fields, st.ambiguous
 				if under, ok := field.Type().Underlying().(*types.Struct); ok && promotedFields == nil {
 					// the embedded struct is still being analysed (it lies on a cycle,
 					// like Inner{ Kids []Outer } embedded by Outer) : read its definition
-					promotedFields = an.handleStructFields(under, ctx)
+					promotedFields, promotedAmbiguous = an.handleStructFields(under, ctx)
 				}
 				for _, promoted := range promotedFields {
+					promoted.depth++
+					out = append(out, promoted)
+				}
+				for _, promoted := range promotedAmbiguous {
 					promoted.depth++
 					out = append(out, promoted)
 				}
@@ -402,8 +408,9 @@ func (an *Analysis) handleStructFields(typ *types.Struct, ctx context) []StructF
 
 // hideShadowedFields applies the rule of encoding/json to the fields sharing
 // one JSON name after flattening : the least nested one is kept, a tagged field
-// winning over untagged ones at the same depth; the name is dropped if several remain.
-func hideShadowedFields(fields []StructField) []StructField {
+// winning over untagged ones at the same depth; the name is dropped if several remain,
+// in which case these fields are also returned as `ambiguous`.
+func hideShadowedFields(fields []StructField) (visible, ambiguous []StructField) {
 	isSerialized := func(f StructField) bool { return f.Field.Exported() && f.Tag.Get("json") != "-" }
 	byName := make(map[string][]int)
 	for i, f := range fields {
@@ -411,7 +418,7 @@ func hideShadowedFields(fields []StructField) []StructField {
 			byName[f.JSONName()] = append(byName[f.JSONName()], i)
 		}
 	}
-	hidden := make(map[int]bool)
+	hidden, isAmbiguous := make(map[int]bool), make(map[int]bool)
 	for _, indices := range byName {
 		if len(indices) < 2 {
 			continue
@@ -443,17 +450,23 @@ func hideShadowedFields(fields []StructField) []StructField {
 				hidden[i] = true
 			}
 		}
-	}
-	if len(hidden) == 0 {
-		return fields
-	}
-	var out []StructField
-	for i, f := range fields {
-		if !hidden[i] {
-			out = append(out, f)
+		if keep == -1 {
+			for _, i := range candidates {
+				isAmbiguous[i] = true
+			}
 		}
 	}
-	return out
+	if len(hidden) == 0 {
+		return fields, nil
+	}
+	for i, f := range fields {
+		if !hidden[i] {
+			visible = append(visible, f)
+		} else if isAmbiguous[i] {
+			ambiguous = append(ambiguous, f)
+		}
+	}
+	return visible, ambiguous
 }
 
 func (an *Analysis) createType(typ types.Type, ctx context) Type {
@@ -487,8 +500,8 @@ func (an *Analysis) createType(typ types.Type, ctx context) Type {
 				Name: name,
 				// Implements are defered
 			}
-			an.Types[typ] = str                         // register before recursing
-			str.Fields = an.handleStructFields(st, ctx) // recurse
+			an.Types[typ] = str                                        // register before recursing
+			str.Fields, str.ambiguous = an.handleStructFields(st, ctx) // recurse
 			str.Comments = fetchStructComments(ctx.rootPackage, name)
 			return str
 		} else {
